@@ -636,6 +636,7 @@ def level_range():
                 emit('range_bool', R, lambda: orE(n != 0))
                 emit('range_str', R, lambda: orE(range_strs(a, b, c)))
                 emit('range_first3', R, lambda: orE([a + t * c for t in range(min(n, 3))]))
+                emit('go_range_first3', R, lambda: orE([a + t * c for t in range(min(n, 3))]))
                 if n <= 40:
                     emit('range_list', R, lambda: orE([a + t * c for t in range(n)]))
                     emit('range_reversed', R, lambda: orE([a + t * c for t in range(n - 1, -1, -1)]))
@@ -675,6 +676,7 @@ def level_range():
                     assert m == 0 or (p[0] == pr.start and (m == 1 or p[2] == pr.step)), (a, b, c, i, j, k)
                     emit('range_slice_len', A, lambda: orE(m))
                     emit('range_slice_first3', A, lambda: orE([p[0] + t * p[2] for t in range(min(m, 3))]))
+                    emit('go_range_slice_first3', A, lambda: orE([p[0] + t * p[2] for t in range(min(m, 3))]))
                     emit('range_slice_idx', A + [-1], lambda: (orE(p[0] + (m - 1) * p[2]) if m > 0 else 'E'))
     # range equality: same sequence of integers
     OUT.level('3b-range-equality')
